@@ -171,7 +171,7 @@ pub fn run_batch(batch: &[Case], acc: &mut Acc) -> Vec<Option<u128>> {
         return vec![None];
     }
     // attribute `info time` lines and recorded budgets to the cases in order
-    let infos: Vec<u128> = e.log.iter().filter_map(|ev| if let Ev::Out(0, t) = ev { t.strip_prefix("info time ").and_then(|x| x.trim().parse().ok()) } else { None }).collect();
+    let infos: Vec<u128> = e.log.iter().filter_map(|ev| if let Ev::Out(0, t) = ev { crate::srch::parse_info(t).and_then(|i| i.time) } else { None }).collect();
     let mut k = 0;
     for c in batch {
         if c.expect_timer {
